@@ -5,6 +5,15 @@ import subprocess
 
 TECH = "Coq proof over a hand-written Gallina model + model/implementation correspondence evaluated in coqc"
 CLAIMS = {
+ "C01": dict(level="proof", design="3/C01",
+   text="PARTIAL proof + evaluated specification. The whole ScopeVisitor is modelled (the order in which full_moon's Visitor drives its hooks as an event generator over the Lua 5.1 syntax tree; scope stack, arenas, captured_references, reference merging and try_hoist as a state machine) and agrees with the real ScopeManager reference by reference and variable by variable, in arena order. Proved for every syntax tree: the walk's open/close sequence is balanced and never pops the root scope (both asserts unreachable), and undefined_variable reports the identifier of every qualifying reference exactly once. Lua's scoping is written as an independent resolver in Coq, including the occurrence-level known classes K1-K5; the property's two zones are EVALUATED by coqc on the real diagnostics of every generated program (no unexplained deviation), but the general theorem 'model agrees with Lua scoping outside K1-K5' is still open.",
+   note="Trusted: full_moon's parser and the harness's printer of its tree; lua51 library roots as oracle; the open agreement theorem. Open findings K1-K5 are genuine deviations of selene from Lua scoping, listed in KNOWN_FINDINGS.txt with witnesses."),
+ "C02": dict(level="proof", design="3/C02",
+   text="PARTIAL proof + evaluated specification, on the same scope model as C01 (per-variable reference lists and read/write/extend flags are compared with the real ScopeManager). Proved: balance of the walk. The zones 'a variable with an unaffected expression-position use is never flagged' and 'a variable never mentioned again is flagged (unless ignored / implicit self)' are evaluated by coqc, from the independent Lua resolver, on the real unused_variable diagnostics of every generated program; deviations fall in the known classes K1-K4 (affected occurrences), KA (an affected occurrence captured by the variable) and K8 (library-root names).",
+   note="Trusted: as C01; variables initialised with a table constructor are left unconstrained (the documented observes:write carve-out is not modelled); unused_variable itself is not modelled (its diagnostics are judged, not reproduced)."),
+ "C03": dict(level="proof", design="3/C03",
+   text="PARTIAL proof + evaluated specification, on the same scope model as C01. Proved: the shadowing lint reports exactly the variables whose `shadowed` field is set (minus ignored names and `...`) with the shadowed declaration as secondary label; balance of the walk. Evaluated per case by coqc against the independent Lua resolver: every report names the innermost visible same-name declaration, and every declaration re-using a visible name is reported; deviations fall in K3 (closures in initialisers walked late) and K7 (implicit globals treated as variables).",
+   note="Trusted: as C01."),
  "C06": dict(level="proof", design="3/C06",
    text="Proof, for all libraries and all query paths, that the model of find_global obeys the documented rules (explicit entry wins; explicit segment beats `*`, `*` is the fallback; struct segments continue in the struct; any absorbs; on wildcard/struct/any-free libraries the result is exactly: key -> its field, proper prefix of keys -> implicit read-only table, else absent), is total when every named struct exists (and reaches the panic otherwise), does not depend on key order, that a known root always resolves, and that writes follow the writability table with every assignment target judged independently. Tied to /repo by evaluating the real find_global/global_has_fields and the incorrect_standard_library_use diagnostics of generated programs against model and rules inside coqc.",
    note="Trusted: the trie built by extract_into_tree is modelled extensionally (construction covered by correspondence only); name-path extraction and scope resolution are oracles here (real ScopeManager); W1 repaired by a fix: commit."),
